@@ -390,7 +390,7 @@ def run_kani_harness(u, h, workdir, cargo_args, timeout, playback=False):
     return cmd, rc, out, wall, to
 
 
-def native_playback(u, h, workdir, cargo_args, harness_path, test_src):
+def native_playback(u, h, workdir, cargo_args, harness_path, test_src, expect_msgs=None):
     """insert the generated unit test next to the harness and run it natively (`cargo kani playback`)."""
     short = h["name"].split("::")[-1]
     m = re.search(r"fn (kani_concrete_playback_\w+)", test_src)
@@ -424,7 +424,12 @@ def native_playback(u, h, workdir, cargo_args, harness_path, test_src):
         rc, out, wall, to = run_cmd(cmd, workdir, 900, mem_cap=False)
         ran = re.search(r"test result: (\w+)\. (\d+) passed; (\d+) failed", out)
         failed = bool(ran) and int(ran.group(3)) > 0
-        return {"ran": bool(ran), "reproduced": failed, "test": tname, "cmd": " ".join(cmd),
+        # "reproduced" = the native run panics with the message of one of the checks that failed in the verifier (a panic for
+        # another reason - e.g. the trace of a check that fails early does not carry enough values for the whole harness -
+        # is not a reproduction)
+        msgs = [m.strip('"') for m in (expect_msgs or [])]
+        same = any(m and m in out for m in msgs) if msgs else failed
+        return {"ran": bool(ran), "reproduced": failed and same, "panicked": failed, "test": tname, "cmd": " ".join(cmd),
                 "output_tail": out[-2500:], "wall_s": round(wall, 1)}
     finally:
         open(harness_path, "w").write(backup)
@@ -487,7 +492,12 @@ def run_kani_unit(u, tier, scratch, pid, known):
         else:
             unwind = [c for c in k["failed"] if "unwinding assertion" in c["desc"]]
             unsupported = [c for c in k["failed"] if "is not currently supported by Kani" in c["desc"] or c["status"] == "UNDETERMINED"]
-            real = [c for c in k["failed"] if c not in unwind and c not in unsupported]
+            # CBMC's default --nan-check flags every float operation that may produce a NaN inside the code under test. A NaN
+            # is not a panic and not by itself a breach of a property: where a property demands finite values the harness
+            # asserts that explicitly. These checks are therefore not obligations (listed as ignored in the evidence).
+            nan_checks = [c for c in k["failed"] if ".NaN." in c["id"] or c["desc"].startswith("NaN on ")]
+            ob["ignored_nan_checks"] = len(nan_checks)
+            real = [c for c in k["failed"] if c not in unwind and c not in unsupported and c not in nan_checks]
             bad_covers = [c for c in k["covers"] if c["status"] != "SATISFIED"]
             if h.get("expect") == "fail":
                 # negative harness: a reachability / sensitivity guard that MUST fail
@@ -523,7 +533,7 @@ def run_kani_unit(u, tier, scratch, pid, known):
                 }
                 if pb:
                     try:
-                        fail["native_replay"] = native_playback(u, h, workdir, cargo_args, harness_path, pb)
+                        fail["native_replay"] = native_playback(u, h, workdir, cargo_args, harness_path, pb, [c["desc"] for c in real])
                     except Exception as e:  # pragma: no cover
                         fail["native_replay"] = {"ran": False, "why": repr(e)}
                 res["failed"].append(fail)
@@ -533,7 +543,7 @@ def run_kani_unit(u, tier, scratch, pid, known):
             elif bad_covers and not h.get("allow_unsat_covers"):
                 ob["status"] = "error"
                 any_undecided = any_undecided or f"harness {h['name']}: cover not satisfied ({bad_covers[0]['desc']}) – vacuous precondition"
-            elif k["verdict"] == "SUCCESSFUL":
+            elif k["verdict"] == "SUCCESSFUL" or (nan_checks and len(nan_checks) == len(k["failed"])):
                 ob["status"] = "discharged"
             else:
                 ob["status"] = "error"
@@ -788,7 +798,7 @@ def replay(path):
     try:
         workdir, cargo_args, infos, harness_path, _ = prepare_kani_unit(u, scratch)
         h = [x for x in u["harnesses"] if x["name"] == doc["harness"]][0]
-        nr = native_playback(u, h, workdir, cargo_args, harness_path, doc["playback_test"])
+        nr = native_playback(u, h, workdir, cargo_args, harness_path, doc["playback_test"], [c["desc"] for c in (doc.get("failed_checks") or [])])
         print(nr.get("output_tail", ""))
         print("REPRODUCED on the current tree" if nr.get("reproduced") else "not reproduced on the current tree")
         return 1 if nr.get("reproduced") else 0
